@@ -1016,7 +1016,8 @@ func main() {
 		{ot, []string{"cache.afterWriteTask", "cache.scheduleAfterWrite", "cache.scheduleDrainBuffers", "cache.drainBuffers", "cache.performCleanUp",
 			"cache.rescheduleCleanUpIfIncomplete", "cache.maintenance", "cache.drainWriteBuffer", "cache.shouldDrainBuffers", "cache.afterRead", "cache.getNode",
 			"cache.SetMaximum", "cache.GetMaximum", "cache.WeightedSize", "cache.InvalidateAll", "cache.CleanUp", "cache.evictionOrder",
-			"group.startCall", "group.deleteCall", "group.delete", "group.doCall", "group.doBulkCall", "cache.afterDeleteCall"}},
+			"group.startCall", "group.deleteCall", "group.delete", "group.doCall", "group.doBulkCall", "cache.afterDeleteCall",
+			"cache.Get", "cache.BulkGet", "cache.refreshKey", "cache.bulkRefreshKeys", "cache.wrapLoad", "call.cancel", "call.wait"}},
 		{qp, []string{"MPSC.TryPush", "MPSC.pushSlowPath", "MPSC.resize", "MPSC.TryPop", "MPSC.getNextBuffer", "MPSC.newBufferTryPush", "MPSC.newBufferAndOffset"}},
 		{lp, []string{"ring.add", "ring.drainTo", "Striped.Add", "Striped.expandOrRetry", "Striped.DrainTo"}},
 		{xs, []string{"Adder.Add", "Adder.Value"}},
@@ -1027,7 +1028,7 @@ func main() {
 		for _, f := range g.funcs {
 			listed[f[strings.Index(f, ".")+1:]] = true
 		}
-		for _, extra := range []string{"evictNode", "runTask", "TryPush", "TryPop", "DrainTo", "drainReadBuffer", "expireNodes", "evictNodes", "climb", "deleteNode", "Invalidate"} {
+		for _, extra := range []string{"evictNode", "runTask", "TryPush", "TryPop", "DrainTo", "drainReadBuffer", "expireNodes", "evictNodes", "climb", "deleteNode", "Invalidate", "wait", "cancel", "Wait", "Done"} {
 			listed[extra] = true
 		}
 		for _, f := range g.funcs {
